@@ -818,7 +818,7 @@ class Program:
         st = [(e, None) for e in entries]
         while st:
             p, frm = st.pop()
-            if p in seen or p in stop:
+            if p in seen or p in stop or any(p.startswith(s_ + "::{") for s_ in stop):
                 continue
             b = self.bodies.get(p)
             if b is None:
